@@ -28,6 +28,10 @@ type EncodeOpts struct {
 	// an earlier record with the default value in front of a populated singular
 	// scalar (the last one wins).
 	Redundant bool
+	// NonCanonical: scalars may use encodings no encoder emits but every
+	// decoder must accept: `true` as any non-zero varint byte, varints padded
+	// to a non-minimal length.
+	NonCanonical bool
 }
 
 // SplitRecords cuts a well-formed wire stream into its records.
@@ -57,21 +61,38 @@ func wireType(k protoreflect.Kind) protowire.Type {
 	return protowire.VarintType
 }
 
+// appendVarint writes a varint, sometimes padded to a non-minimal length.
+func (o *EncodeOpts) appendVarint(b []byte, x uint64) []byte {
+	start := len(b)
+	b = protowire.AppendVarint(b, x)
+	if o.T != nil && o.NonCanonical && len(b)-start < 9 && o.T.Chance("varint-padded", 1, 6) {
+		b[len(b)-1] |= 0x80
+		for i, n := 0, o.T.Draw("varint-pad", 2); i < n; i++ {
+			b = append(b, 0x80)
+		}
+		b = append(b, 0x00)
+	}
+	return b
+}
+
 func (o *EncodeOpts) appendScalar(b []byte, fd protoreflect.FieldDescriptor, v protoreflect.Value) []byte {
 	switch fd.Kind() {
 	case protoreflect.BoolKind:
 		if v.Bool() {
+			if o.T != nil && o.NonCanonical && o.T.Chance("bool-noncanonical", 1, 2) {
+				return append(b, []byte{2, 0x7f, 3, 0x40}[o.T.Draw("bool-byte", 4)])
+			}
 			return protowire.AppendVarint(b, 1)
 		}
 		return protowire.AppendVarint(b, 0)
 	case protoreflect.EnumKind:
-		return protowire.AppendVarint(b, uint64(int64(v.Enum())))
+		return o.appendVarint(b, uint64(int64(v.Enum())))
 	case protoreflect.Int32Kind, protoreflect.Int64Kind:
-		return protowire.AppendVarint(b, uint64(v.Int()))
+		return o.appendVarint(b, uint64(v.Int()))
 	case protoreflect.Sint32Kind, protoreflect.Sint64Kind:
-		return protowire.AppendVarint(b, protowire.EncodeZigZag(v.Int()))
+		return o.appendVarint(b, protowire.EncodeZigZag(v.Int()))
 	case protoreflect.Uint32Kind, protoreflect.Uint64Kind:
-		return protowire.AppendVarint(b, v.Uint())
+		return o.appendVarint(b, v.Uint())
 	case protoreflect.Sfixed32Kind:
 		return protowire.AppendFixed32(b, uint32(v.Int()))
 	case protoreflect.Fixed32Kind:
